@@ -246,7 +246,7 @@ theorem storeStep_pruneAll (s : Store) (hs : StoreInv s) (hm : TsMono s) (now : 
     · intro h c e en
       have en' : (s.pruneAll cs.trustingPeriod now).1.getCons h = none := en
       rw [h3 h, e] at en'
-      refine ⟨cs, rfl, ?_⟩
+      refine ⟨cs, hc, ?_⟩
       by_cases he : isExpired cs.trustingPeriod c.ts now = true
       · exact he
       · simp [he] at en'
